@@ -392,6 +392,9 @@ def _set_box(s, lo, hi):
     # symbols are shared between replays only through fresh creation, so narrowing in place is path-local
     if lo is not None and hi is not None and lo > hi:
         raise DeadPath()
+    undo = getattr(P, "box_undo", None)
+    if undo is not None:
+        undo.append((s, s.lo, s.hi))
     s.lo, s.hi = lo, hi
 
 
@@ -696,3 +699,36 @@ def explore(task, max_paths=20000):
 def set_path(p):
     global P
     P = p
+
+
+def speculate(task, max_paths=400):
+    """Run task() under every choice vector on throw-away copies of the current path: what it learns, assumes or
+    creates does not reach the current path.  Returns (results, first symbol id created inside)."""
+    global P
+    outer = P
+    mark = next(Sym._n)
+    out, stack, n = [], [[]], 0
+    try:
+        while stack:
+            vec = stack.pop()
+            n += 1
+            if n > max_paths:
+                raise AnalysisError("engine B: path explosion inside a speculative run (> %d paths)" % max_paths)
+            sub = Path(vec)
+            sub.cons, sub.subst, sub.monos = list(outer.cons), dict(outer.subst), dict(outer.monos)
+            sub.entries, sub.events = list(outer.entries), list(outer.events)
+            sub.box_undo = []
+            P = sub
+            try:
+                out.append(task())
+            except (DeadPath, Truncated):
+                pass
+            finally:
+                for sy, lo, hi in reversed(sub.box_undo):
+                    sy.lo, sy.hi = lo, hi
+                P = outer
+            for i in range(len(vec), len(sub.log)):
+                stack.append([v for _, v in sub.log[:i]] + [True])
+    finally:
+        P = outer
+    return out, mark
